@@ -8,6 +8,9 @@
 #include <sys/mman.h>
 #include <sys/stat.h>
 #include <unistd.h>
+#ifdef OVNI_VERIF
+#include <stdlib.h>
+#endif
 #include "ovni.h"
 #include "path.h"
 
@@ -57,6 +60,32 @@ load_stream_fd(struct stream *stream, int fd)
 		err("stream %s is empty", stream->path);
 		return -1;
 	}
+
+#ifdef OVNI_VERIF
+	/* Verification hook: with OVNI_VERIF_HEAPBUF set, load the stream into
+	 * a heap buffer of the exact file size instead of mapping it, so that
+	 * a sanitizer sees any access outside the loaded stream (a mapping is
+	 * rounded up to a page and hides small over-reads). */
+	if (getenv("OVNI_VERIF_HEAPBUF") != NULL) {
+		uint8_t *hbuf = malloc((size_t) st.st_size);
+		if (hbuf == NULL) {
+			err("malloc failed:");
+			return -1;
+		}
+		size_t done = 0;
+		while (done < (size_t) st.st_size) {
+			ssize_t n = read(fd, hbuf + done, (size_t) st.st_size - done);
+			if (n <= 0) {
+				err("read failed:");
+				return -1;
+			}
+			done += (size_t) n;
+		}
+		stream->buf = hbuf;
+		stream->size = st.st_size;
+		return 0;
+	}
+#endif
 
 	int prot = PROT_READ | PROT_WRITE;
 	stream->buf = mmap(NULL, (size_t) st.st_size, prot, MAP_PRIVATE, fd, 0);
